@@ -235,3 +235,41 @@ def output_keys(spec: dict) -> dict[str, set[str]]:
                 ks.add("sig_seen")
         out[s["ref"]] = ks
     return out
+
+
+def stale_redirect_witness(run: Any) -> str | None:
+    """Mechanism classifier: a CompleteTask(REDIRECT) produced in loop iteration i is
+    delivered after the jump re-armed its stage and the same task is RUNNING again in
+    iteration i+1; it marks that task REDIRECT and the stage wedges.
+
+    Decided from the audit log only: a task row RUNNING->REDIRECT committed by a
+    CompleteTask message whose queue row was inserted *before* the last re-arm
+    (->NOT_STARTED) of that task."""
+    groups = Groups(run.commits)
+    ins_seq = {a["a"]: a["seq"] for a in run.audit if a["kind"] == "queue" and a["op"] == "ins"}
+    marks = {}
+    for a in run.audit:
+        if a["kind"] == "mark" and a["op"] == "ins" and a["b"] == "CompleteTask":
+            marks.setdefault(groups.of(a["seq"]), a["a"])
+    last_rearm: dict[str, int] = {}
+    for a in run.audit:
+        if a["kind"] != "status" or a["op"] != "task":
+            continue
+        if a["d"] == "NOT_STARTED":
+            last_rearm[a["a"]] = a["seq"]
+        elif a["c"] == "RUNNING" and a["d"] == "REDIRECT":
+            mid = marks.get(groups.of(a["seq"]))
+            born = ins_seq.get(str(mid)) if mid is not None else None
+            if born is not None and a["a"] in last_rearm and born < last_rearm[a["a"]]:
+                return f"task {a['f']} of stage {a['b']} set REDIRECT at seq {a['seq']} by CompleteTask row {mid} inserted at seq {born}, before the re-arm at seq {last_rearm[a['a']]}"
+    return None
+
+
+def attribute(violations: list[dict], run: Any, prop: str) -> list[dict]:
+    """Re-sign the violations of a run whose failure is explained by a classified mechanism."""
+    if not violations:
+        return violations
+    w = stale_redirect_witness(run)
+    if w:
+        return [viol(f"{prop}/stale-redirect-completion-overtakes-next-iteration", f"{w}; symptoms: {[v['sig'] for v in violations][:4]}")]
+    return violations
